@@ -30,6 +30,9 @@ ETH = "ebpfcat.ethercat."
 
 
 def run(chk, repo):
+    chk.doc("R12.8", "per-master and per-packet state is per instance")
+    per_instance_rule(chk, repo, "R12.8", ["ebpfcat.ethercat.Packet", "ebpfcat.ethercat.EtherCat"], "requests of one "
+                      "frame or master are answered from another's table")
     chk.doc("R12.1", "completion guard on request/frame futures")
     chk.doc("R12.2", "own position: tuple of (start, stop, future)")
     chk.doc("R12.3", "progress on overflow in sendloop")
